@@ -11,6 +11,24 @@ SPIDEV = "adafruit_bus_device.SPIDevice / digitalio.DigitalInOut: assumed to fra
 NOT_APPLICABLE = {}
 
 PROPERTIES = {
+    "C09": {
+        "level_text": "RF24.__enter__ is proved, from ANY register file (whatever other objects sharing the radio did) and any well-formed shadows, to leave every configuration register equal to the object's shadow attributes (Inv) with only PWR_UP set in the shadows; __exit__ to drive CE low, clear PWR_UP and keep Inv; RF24.__init__ to establish Inv (plus variant); the RadioMixin enter/exit to delegate without further register writes. With C03/C08/C10 (every call inside a block preserves Inv) and the frame fact that no method can reach another object's shadows, induction over the block sequence gives restoration for any number and interleaving of objects.",
+        "level_note": "Assumes A-HW, A-SEP; the induction over blocks is an argument over the proved per-call contracts (stated in spec/c09.py), not a separately mechanised lemma; FakeBLE's constructor/exit are covered under C18's channel invariant when that property is claimed.",
+        "modules": ["spec.c09"],
+        "level": "proof",
+        "trusted_base": [ENGINE, A_HW, A_SEP, SPIDEV, "SPI primitives inlined", "composition over `with` blocks argued from the per-call contracts"],
+        "assumptions": [A_HW, A_SEP, SPIDEV, "objects are used only inside their own `with` block (the property's hypothesis)", "plus variant (A-HW models the nRF24L01+)"],
+    },
+    "C02": {
+        "level_text": "send() (single payload, force_retry 0..2) and resend() are proved against the PTX engine of A-HW with universally quantified oracles for every loss pattern: the result is truthy iff an attempt resolved TX_DS and False iff the first attempt and every forced retry resolved MAX_RT, at most 1+force_retry attempts are made, exactly one payload is loaded and every attempt transmits it from an otherwise empty TX FIFO (no leak from earlier failed calls), resend() retransmits exactly the FIFO head or returns False without an attempt, and SendInv is re-established, so the statements hold for every sequence of send()/resend() calls.",
+        "level_note": "Relative to A-HW/A-HW-LIVE; the polling loops are explored for poll budgets 0..2 and extended to every finite budget by the stutter argument in spec/c02.py (a pending poll is idempotent); force_retry 0..2 by unrolling; real-time bounds are out of reach (DESIGN section 6); list inputs are not covered.",
+        "modules": ["spec.c02"],
+        "level": "proof",
+        "trusted_base": [ENGINE, A_HW, "A-HW-LIVE: every started attempt resolves within finitely many SPI frames", A_INT, SPIDEV,
+                         "callees write/update/flush_*/fifo/read/any/clear_status_flags/resend are inlined into send (verified as part of it)"],
+        "assumptions": [A_HW, "A-HW-LIVE", "SendInv precondition: histories consist of send()/resend() calls (a TX FIFO pre-filled by write(..., write_only=True) is outside it)",
+                        "poll budget explored 0..2 + stutter lemma; force_retry explored 0..2; list/tuple inputs not covered; wall-clock bound not decided"],
+    },
     "C01": {
         "level_text": "write() is proved, for every buffer length and content (unbounded, bytes and bytearray), every static length/dynamic setting and every radio state satisfying Inv, to raise ValueError with no SPI frame and no state change exactly for empty/oversize dynamic payloads and otherwise to load exactly one W_TX_PAYLOAD(_NOACK) frame carrying exactly the documented payload (unchanged, or zero-padded/truncated to the static length), to return False without loading when the TX FIFO is full, and never to modify the caller's buffer; any()/read() are proved to return and pop exactly the head payload (spec/c10.py); the four SPI primitives and SPIDevCtx.write_readinto are proved to frame exactly one CSN transaction with the bytes given.",
         "level_note": "Assumes A-HW and Inv. The over-the-air step (A-AIR: a loaded payload is pushed once, in order, into the FIFO of the listening peer's matching pipe) is assumed, so 'exactly once, in order, attributed to the pipe' is the composition of write's and read's contracts over the shared FIFO-slot representation, not a proved multi-radio theorem; send()'s waiting loop is C02's subject.",
